@@ -68,6 +68,16 @@ def runEval (r : List String) : Option String := do
   let s := spec env e
   pure s!"{showRes m.1} ; {showTrace m.2} | {showRes s.1.toExcept} ; {showTrace s.2}"
 
+/-- `evalcs`: the same trees against a CASE-SENSITIVE host environment (names compared exactly: the association-list environment with the
+    identity as key function) -/
+def runEvalCs (r : List String) : Option String := do
+  let (senv, r) ← parseEnvWith id noStdlib r
+  let (e, _) ← parseExpr r
+  let env := senv.toEnv id
+  let m := evalT env e
+  let s := spec env e
+  pure s!"{showRes m.1} ; {showTrace m.2} | {showRes s.1.toExcept} ; {showTrace s.2}"
+
 /-- `env <ops>`: one answer per op, joined by " , " (mirror of harness run_env) -/
 def showFn (f : Fn Float) (behName : String) : String :=
   let a := match f.arity with | .polyadic r o => s!"P{r}+{o}" | .variadic => "V" | .none => "N"
@@ -427,6 +437,7 @@ def step (zm : ZoneMode) (line : String) : String :=
     | "cmp" :: r => runCmp r
     | "eval" :: r => runEval r
     | "env" :: r => runEnv r
+    | "evalcs" :: r => runEvalCs r
     | "json" :: r => runJson r
     | "opt" :: r => runOpt r
     | "call" :: r => runCall zm r
